@@ -37,13 +37,16 @@ type histOpts struct {
 	// structured families that stress the suffix sorter (Fibonacci, runs,
 	// padded records, ...); for the parsers built on suffix.Sort.
 	suffixPct int
+	// zeroPct: percentage of the small-step histories whose text is mostly
+	// 0x00 (the value of an empty hash table slot) with a few other bytes.
+	zeroPct int
 }
 
 func defaultHistOpts() histOpts {
 	return histOpts{
 		maxOps: 24, maxText: 600,
 		write: 8, fill: 6, readFrom: 4, parse: 12, drain: 6, shrink: 6,
-		resetNil: 1, resetDat: 1, ntl: 30, tinyPct: 12,
+		resetNil: 1, resetDat: 1, ntl: 30, tinyPct: 12, zeroPct: 30,
 	}
 }
 
@@ -94,7 +97,13 @@ func genParserHistory(t *rapid.T, x *parserExec, o histOpts) {
 	}
 	tiny := o.tinyPct > 0 && rapid.IntRange(0, 99).Draw(t, "tiny") < o.tinyPct
 	var text []byte
-	if tiny {
+	if tiny && o.zeroPct > 0 && rapid.IntRange(0, 99).Draw(t, "zeroText") < o.zeroPct {
+		n := rapid.IntRange(3, 16).Draw(t, "zeroTextLen")
+		text = make([]byte, n)
+		for i := range text {
+			text[i] = rapid.SampledFrom([]byte{0, 0, 0, 0, 'a', 'b', 1}).Draw(t, "zeroTextByte")
+		}
+	} else if tiny {
 		text = genText(t, "text", rapid.IntRange(2, 12).Draw(t, "tinyText"))
 	} else if o.suffixPct > 0 && rapid.IntRange(0, 99).Draw(t, "suffixText") < o.suffixPct {
 		text, _ = genSuffixText(t, o.maxText)
